@@ -10,7 +10,9 @@ TNext == UNCHANGED <<cid, ty, cl, second, nth>>
 TSpec == TInit /\ [][TNext]_<<cid, ty, cl, second, nth>>
 C == Cases[cid]
 Contract ==
-   /\ C.outcome \in (IF C.probe = "value" THEN Allowed(C.T, C.c) ELSE {"refused"})       \* never a different value
+   /\ C.outcome \in (IF C.probe = "value" THEN Allowed(C.T, C.c)
+                      ELSE IF C.probe = "after-refused-first" THEN {"refused", "own-schema"}    \* nothing was written yet: refused as well, or written under their own schema
+                      ELSE {"refused"})                                                  \* never a different value
    /\ (C.outcome = "refused" => ~C.probe_in_file)                                       \* a refused record is not in the file
    /\ C.good_records_intact                                                             \* the records around it are all there, unchanged
    /\ C.std_reader_opens                                                                \* a standard Avro reader can open the container
